@@ -4,7 +4,7 @@
 package neo3legacy
 
 //@ func (*Neo3Handler).SyncGenesisHeader
-//@   property C18
+//@   property C18, C19
 //@   mode abstract
 //@   modifies Store
 //@   requires native != nil && native.tx != nil
@@ -16,3 +16,8 @@ package neo3legacy
 //@   callsite[c18-operator] ValidateOwner#1 requires arg1 == gop
 //@   -- installing a trust root changes storage only with the operator's witness
 //@   ensures[c18-witness] Store != old(Store) ==> wit
+//@   ghost var cid uint64 = 0
+//@   set after "if err := params.Deserialization(common.NewZeroCopySource(native.GetInput())); err != nil" : cid := params.ChainID
+//@   -- C19: the trust root is installed only if none was installed, and a later attempt fails without touching state
+//@   ensures[c19-once] err == nil ==> old(Store)[peerKey(cid)] == None
+//@   ensures[c19-rejected] old(Store)[peerKey(cid)] != None ==> err != nil && Store == old(Store)
